@@ -21,7 +21,11 @@
                `create_joined_batch` + the error text.
              * C22-F6 (dictionary-encoded VARCHAR probe key): the right input of the join is itself a join, a key column holds
                strings, and the model with `dictProbeKeyNoMatch` reproduces the rows.
-             C22-F1 … F5 are repaired in /repo (status fixed in known_findings.json): a case matching one of them is no longer
+             * C22-F7 (COUNT over a join counts the NULLs of a build-side VARCHAR column): COUNT-over-join statement whose rows
+               equal the model's over the tables with the VARCHAR NULLs of ONE side replaced by pairwise distinct strings.
+             * C22-F8 (Semi/Anti over a join output with a dictionary-encoded VARCHAR column): signature = Semi/Anti, an input
+               of the join is a join, and the error text of RecordBatch::try_new.
+             C22-F1 … F6 are repaired in /repo (status fixed in known_findings.json): a case matching one of them is no longer
              attributed by ./check — it is reported as a VIOLATION carrying that label (a regression).
              Anything else is left unattributed (a new VIOLATION).
 -/
@@ -52,8 +56,11 @@ structure JoinDesc where
   viaExists : Bool
   /-- the right input of the join is itself a join (its output reaches the probe dictionary-encoded) -/
   rNested : Bool := false
-  /-- output expressions over left ++ right (Semi/Anti: over the left row) -/
+  lNested : Bool := false
+  /-- output expressions over left ++ right (Semi/Anti: over the left row; COUNT form: over the aggregate's row) -/
   es : List Expr
+  /-- `SELECT COUNT(*), COUNT(col)… FROM <join>`: the global aggregate applied to the join's rows before `es` -/
+  aggs : Option (List AggCall) := none
 
 def widthOf (t : Table) (dflt : Nat) : Nat := match t with | r :: _ => r.length | [] => dflt
 
@@ -79,6 +86,10 @@ def tableAt (c : Case) (i : Nat) : Table := (c.tables[i]?).getD []
 
 def descOf (c : Case) (lwCat rwCat : Nat) : Except String JoinDesc :=
   match c.plan with
+  | .project _ es (.agg [] aggs (.join jt lw rw _ on (.scan a) (.scan b))) =>
+    let (lk, rk, rest) := if jt == .cross then ([], [], []) else splitOn lw on
+    pure { jt := jt, lw := lw, rw := rw, L := tableAt c a, R := tableAt c b, lkeys := lk, rkeys := rk, rest := rest,
+           viaExists := false, es := es, aggs := some aggs }
   | .project _ es (.join jt lw rw _ on l r) =>
     -- the inputs of the (top) join: base tables, or the reference answer of a nested join
     let inputOf (q : Query) : Except String Table := match q with
@@ -91,8 +102,9 @@ def descOf (c : Case) (lwCat rwCat : Nat) : Except String JoinDesc :=
     let R ← inputOf r
     let (lk, rk, rest) := if jt == .cross then ([], [], []) else splitOn lw on
     let rNested := match r with | .join .. => true | _ => false
+    let lNested := match l with | .join .. => true | _ => false
     pure { jt := jt, lw := lw, rw := rw, L := L, R := R, lkeys := lk, rkeys := rk, rest := rest,
-           viaExists := false, rNested := rNested, es := es }
+           viaExists := false, rNested := rNested, lNested := lNested, es := es }
   | .project _ es (.filter [sub] (.exists_ 0 neg) (.scan a)) =>
     match sub with
     | .project _ _ (.filter _ p (.scan b)) =>
@@ -138,6 +150,9 @@ def cfgOf (d : JoinDesc) (buildLeft : Bool) : Cfg :=
 
 def modelRun (dev : Dev) (d : JoinDesc) (inp : Inputs) (buildLeft : Bool) : Except Err Table := do
   let rows := hashJoin dev d.jt (cfgOf d buildLeft) inp.lp inp.rp
+  let rows ← match d.aggs with
+    | some aggs => Spec.aggregate cx0 [] [] aggs rows
+    | none => pure rows
   rows.mapM fun r => evalList cx0 [r] d.es
 
 /-- evaluating the residual must not fail (overflow …) on any candidate pair; otherwise the case is outside the model -/
@@ -286,8 +301,22 @@ def attrC22 (d : JoinDesc) (inp : Inputs) (buildLeftKnown : Option Bool) (cat : 
       | .ok t => if Spec.bagEq out (normTable t) then some "C22-F6" else none
       | .error _ => none
     else none
+  -- C22-F7: COUNT(col) over a join counts the NULLs of a VARCHAR column gathered from the build side (the join emits a
+  -- dictionary whose VALUES hold the NULLs; `null_count()` of the keys is 0).  Mirror: the same statement with those NULLs
+  -- replaced by pairwise distinct strings (distinct from every key, so the join itself is unchanged).
+  let strCols (t : Nat) : List Nat := (List.range 8).filter fun i => colTyAt cat t i == "str"
+  let denull (t : Nat) (rows : Table) : Table :=
+    let cs := strCols t
+    (List.range rows.length).zip rows |>.map fun (n, r) =>
+      r.mapIdx fun i v => if v.isNull && cs.contains i then .str s!"\u0000{t}:{n}:{i}" else v
+  let byCountNull (out : Table) : Option String :=
+    if d.aggs.isNone then none else
+    let variants : List (Table × Table) := [(denull 0 d.L, d.R), (d.L, denull 1 d.R)]
+    if variants.any (fun (l, r) => (l != d.L || r != d.R) &&
+        (match modelRun {} { d with L := l, R := r } { lp := [[l]], rp := [[r]] } true with
+         | .ok t => Spec.bagEq out (normTable t) | .error _ => false)) then some "C22-F7" else none
   match o with
-  | .ok out => (bySwitch out).orElse fun _ => byDict out
+  | .ok out => ((bySwitch out).orElse fun _ => byDict out).orElse fun _ => byCountNull out
   | _ =>
     if sigMixedWidth d cat o msg then
       -- neutralised twin: answered correctly, or wrong only by one of the listed Semi/Anti findings
@@ -295,6 +324,10 @@ def attrC22 (d : JoinDesc) (inp : Inputs) (buildLeftKnown : Option Bool) (cat : 
       | some (.ok nout) => if acceptableOn c nout || (bySwitch nout).isSome then some "C22-F3" else none
       | _ => none
     else if sigEmptyBuild d buildLeftKnown o msg then some "C22-F4"
+    -- C22-F8: a Semi/Anti join emits the rows of an input that is itself a join output (dictionary-encoded VARCHAR
+    -- column) under the declared Utf8 schema: RecordBatch::try_new rejects the column type
+    else if isSA d.jt && (d.rNested || d.lNested) && (match o with | .err _ => true | _ => false) &&
+        hasSub msg "expected Utf8 but found Dictionary" then some "C22-F8"
     else none
 
 def jtName : JoinType → String
